@@ -32,6 +32,7 @@ pub struct SimStats {
     pub yields: u64,
     pub tasks: u64,
     pub nested_tasks: u64,
+    pub short_writes: u64,
     pub leaves: u64,
     pub tree_depth: u64,
     pub steals_from_back: u64,
